@@ -513,9 +513,9 @@ theorem sliceGo_expand_length (c : Bool) : ∀ (ds : List Nat) (ss : List Int) (
           | nil => simp at hix
           | cons i ix => simp [expandSlice, ih' ix (by simpa using hix)]
 
-theorem slice_ok {v w : View} {args : List Ix} {c : Bool} (h : slice v args c = .ok w) :
+theorem sliceRaw_ok {v w : View} {args : List Ix} {c : Bool} (h : sliceRaw v args c = .ok w) :
     ∃ inc, sliceGo c v.dims v.strides args = .ok (inc, w.dims, w.strides) ∧ w.base = v.base + inc := by
-  unfold slice at h
+  unfold sliceRaw at h
   cases hg : sliceGo c v.dims v.strides args with
   | error x => simp [hg, bind, Except.bind] at h
   | ok r =>
@@ -525,21 +525,21 @@ theorem slice_ok {v w : View} {args : List Ix} {c : Bool} (h : slice v args c = 
     exact ⟨inc, rfl, rfl⟩
 
 /-- `operator()` with scalar/range/stride/`__` arguments -/
-theorem slice_addr {v w : View} {args : List Ix} {c : Bool} (h : slice v args c = .ok w) :
+theorem sliceRaw_addr {v w : View} {args : List Ix} {c : Bool} (h : sliceRaw v args c = .ok w) :
     w.WF ∧ ∀ ix : List Int, ix.length = w.dims.length →
       (expandSlice v.dims args ix).length = v.dims.length ∧
       addr w ix = addr v (expandSlice v.dims args ix) := by
-  obtain ⟨inc, hg, hb⟩ := slice_ok h
+  obtain ⟨inc, hg, hb⟩ := sliceRaw_ok h
   obtain ⟨hl, ha⟩ := sliceGo_addr c _ _ _ _ _ _ hg
   refine ⟨hl, fun ix hix => ⟨sliceGo_expand_length c _ _ _ _ _ _ hg ix hix, ?_⟩⟩
   have := ha ix hix
   simp only [addr, hb]
   omega
 
-theorem slice_inRange {v w : View} {args : List Ix} {c : Bool} (h : slice v args c = .ok w)
+theorem sliceRaw_inRange {v w : View} {args : List Ix} {c : Bool} (h : sliceRaw v args c = .ok w)
     (hadm : c = true ∨ ArgsAdm v.dims args) :
     ∀ ix : List Int, InRange ix w.dims → InRange (expandSlice v.dims args ix) v.dims := by
-  obtain ⟨inc, hg, _⟩ := slice_ok h
+  obtain ⟨inc, hg, _⟩ := sliceRaw_ok h
   have hadm' : ArgsAdm v.dims args := by
     rcases hadm with rfl | h'
     · exact sliceGo_checked_adm _ _ _ _ _ _ hg
@@ -547,10 +547,10 @@ theorem slice_inRange {v w : View} {args : List Ix} {c : Bool} (h : slice v args
   exact sliceGo_inRange c _ _ _ _ _ _ hg hadm'
 
 /-! ### operator[] -/
-theorem sub1_ok {v w : View} {e : EndExpr} {c : Bool} (h : sub1 v e c = .ok w) :
+theorem sub1Raw_ok {v w : View} {e : EndExpr} {c : Bool} (h : sub1Raw v e c = .ok w) :
     ∃ d ds s ss, v.dims = d :: ds ∧ v.strides = s :: ss ∧ w = ⟨v.base + e.resolve d * s, ds, ss⟩ ∧
       (c = true → 0 ≤ e.resolve d ∧ e.resolve d < d) := by
-  unfold sub1 at h
+  unfold sub1Raw at h
   split at h
   · rename_i d ds s ss hd hs
     cases hj : getIndexWithLen c e d with
@@ -563,21 +563,21 @@ theorem sub1_ok {v w : View} {e : EndExpr} {c : Bool} (h : sub1 v e c = .ok w) :
       exact ⟨d, ds, s, ss, hd, hs, rfl, h2⟩
   · cases h
 
-theorem sub1_addr {v w : View} {e : EndExpr} {c : Bool} (hwf : v.WF) (h : sub1 v e c = .ok w) :
+theorem sub1Raw_addr {v w : View} {e : EndExpr} {c : Bool} (hwf : v.WF) (h : sub1Raw v e c = .ok w) :
     w.WF ∧ ∀ ix : List Int, ix.length = w.dims.length →
       (e.resolve (v.dims.headD 0) :: ix).length = v.dims.length ∧
       addr w ix = addr v (e.resolve (v.dims.headD 0) :: ix) := by
-  obtain ⟨d, ds, s, ss, hd, hs, rfl, _⟩ := sub1_ok h
+  obtain ⟨d, ds, s, ss, hd, hs, rfl, _⟩ := sub1Raw_ok h
   simp only [View.WF, hd, hs, List.length_cons] at hwf
   refine ⟨by simp only [View.WF]; omega, fun ix hix => ?_⟩
   simp only [addr, hd, hs, List.headD_cons, dot, List.length_cons]
   simp only at hix
   omega
 
-theorem sub1_inRange {v w : View} {e : EndExpr} {c : Bool} (h : sub1 v e c = .ok w)
+theorem sub1Raw_inRange {v w : View} {e : EndExpr} {c : Bool} (h : sub1Raw v e c = .ok w)
     (hadm : c = true ∨ (0 ≤ e.resolve (v.dims.headD 0) ∧ e.resolve (v.dims.headD 0) < v.dims.headD 0)) :
     ∀ ix : List Int, InRange ix w.dims → InRange (e.resolve (v.dims.headD 0) :: ix) v.dims := by
-  obtain ⟨d, ds, s, ss, hd, hs, rfl, hc⟩ := sub1_ok h
+  obtain ⟨d, ds, s, ss, hd, hs, rfl, hc⟩ := sub1Raw_ok h
   intro ix hix
   simp only [hd, List.headD_cons, InRange] at hadm ⊢
   refine ⟨?_, hix⟩
@@ -721,11 +721,11 @@ theorem permuteGo_ok (dims : List Nat) (strides : List Int) : ∀ (p : List Int)
         · exact h3 y hy
     · cases h
 
-theorem permute_ok {v w : View} {p : List Int} (h : permute v p = .ok w) :
+theorem permuteRaw_ok {v w : View} {p : List Int} (h : permuteRaw v p = .ok w) :
     p.length = v.dims.length ∧ v.dims.length = v.strides.length ∧
     w = ⟨v.base, p.map (fun x => v.dims.getD x.toNat 0), p.map (fun x => v.strides.getD x.toNat 0)⟩ ∧
     ∀ x ∈ p, 0 ≤ x ∧ x < (v.dims.length : Int) := by
-  unfold permute at h
+  unfold permuteRaw at h
   split at h
   · cases h
   · rename_i h0
@@ -743,11 +743,33 @@ theorem permute_ok {v w : View} {p : List Int} (h : permute v p = .ok w) :
           subst h1 h2
           refine ⟨?_, ?_, rfl, h3⟩ <;> omega
 
-theorem permute_addr {v w : View} {p : List Int} (h : permute v p = .ok w) :
+/-- `permute` returns no view with a zero extent ("Missing dimension" branch of the second loop) -/
+theorem permuteRaw_pos {v w : View} {p : List Int} (h : permuteRaw v p = .ok w) : ∀ d ∈ w.dims, d ≠ 0 := by
+  unfold permuteRaw at h
+  split at h
+  · cases h
+  · split at h
+    · cases h
+    · cases hr : permuteGo v.dims v.strides p with
+      | error e => simp [hr, bind, Except.bind] at h
+      | ok r =>
+        obtain ⟨nd, ns⟩ := r
+        simp only [hr, bind, Except.bind] at h
+        split at h
+        · cases h
+        · rename_i hno
+          cases h
+          intro d hd h0
+          apply hno
+          simp only [Bool.or_eq_true]
+          right
+          exact List.any_eq_true.mpr ⟨d, hd, by simp [h0]⟩
+
+theorem permuteRaw_addr {v w : View} {p : List Int} (h : permuteRaw v p = .ok w) :
     w.WF ∧ ∀ ix : List Int, ix.length = w.dims.length →
       (expandPermute v.dims.length p ix).length = v.dims.length ∧
       addr w ix = addr v (expandPermute v.dims.length p ix) := by
-  obtain ⟨h1, h2, rfl, h4⟩ := permute_ok h
+  obtain ⟨h1, h2, rfl, h4⟩ := permuteRaw_ok h
   refine ⟨by simp [View.WF], fun ix _ => ⟨tabulate_length _ _ _, ?_⟩⟩
   simp only [addr, expandPermute]
   rw [h2] at h4 ⊢
@@ -813,9 +835,9 @@ theorem inRange_tabulate (f : Nat → Int) : ∀ (ds : List Nat) (k : Nat),
     have e : k + (j + 1) = k + 1 + j := by omega
     simpa [e] using this
 
-theorem permute_inRange {v w : View} {p : List Int} (h : permute v p = .ok w) (hp : IsPerm p v.dims.length) :
+theorem permuteRaw_inRange {v w : View} {p : List Int} (h : permuteRaw v p = .ok w) (hp : IsPerm p v.dims.length) :
     ∀ ix : List Int, InRange ix w.dims → InRange (expandPermute v.dims.length p ix) v.dims := by
-  obtain ⟨h1, h2, rfl, h4⟩ := permute_ok h
+  obtain ⟨h1, h2, rfl, h4⟩ := permuteRaw_ok h
   intro ix hix
   simp only [expandPermute]
   apply inRange_tabulate
@@ -826,10 +848,10 @@ theorem permute_inRange {v w : View} {p : List Int} (h : permute v p = .ok w) (h
 
 /-! ### diag_vector, submatrix_on_diagonal -/
 
-theorem diag_addr {v w : View} {k : Int} (h : diagVector v k = .ok w) :
+theorem diagRaw_addr {v w : View} {k : Int} (h : diagVectorRaw v k = .ok w) :
     w.WF ∧ ∀ ix : List Int, ix.length = w.dims.length →
       (expandOp v (.diag k) ix).length = v.dims.length ∧ addr w ix = addr v (expandOp v (.diag k) ix) := by
-  unfold diagVector at h
+  unfold diagVectorRaw at h
   split at h
   · rename_i d0 d1 s0 s1 hd hs
     have key : ∀ (b : Int) (n : Nat), w = ⟨b, [n], [s0 + s1]⟩ →
@@ -865,9 +887,9 @@ theorem diag_addr {v w : View} {k : Int} (h : diagVector v k = .ok w) :
           · cases h; exact key _ _ rfl (by simp [hk])
   · cases h
 
-theorem diag_inRange {v w : View} {k : Int} (h : diagVector v k = .ok w) :
+theorem diagRaw_inRange {v w : View} {k : Int} (h : diagVectorRaw v k = .ok w) :
     ∀ ix : List Int, InRange ix w.dims → InRange (expandOp v (.diag k) ix) v.dims := by
-  unfold diagVector at h
+  unfold diagVectorRaw at h
   split at h
   · rename_i d0 d1 s0 s1 hd hs
     split at h
@@ -913,10 +935,10 @@ theorem diag_inRange {v w : View} {k : Int} (h : diagVector v k = .ok w) :
               exact ⟨⟨by omega, by omega⟩, ⟨by omega, by omega⟩, trivial⟩
   · cases h
 
-theorem subdiag_ok {v w : View} {b e : Int} (h : submatrixOnDiagonal v b e = .ok w) :
+theorem subdiagRaw_ok {v w : View} {b e : Int} (h : submatrixOnDiagonalRaw v b e = .ok w) :
     ∃ d s0 s1, v.dims = [d, d] ∧ v.strides = [s0, s1] ∧ 0 ≤ b ∧ b ≤ e ∧ e < d ∧
       w = ⟨v.base + b * (s0 + s1), [(e - b + 1).toNat, (e - b + 1).toNat], [s0, s1]⟩ := by
-  unfold submatrixOnDiagonal at h
+  unfold submatrixOnDiagonalRaw at h
   split at h
   · rename_i d0 d1 s0 s1 hd hs
     split at h
@@ -930,19 +952,19 @@ theorem subdiag_ok {v w : View} {b e : Int} (h : submatrixOnDiagonal v b e = .ok
         exact ⟨d0, s0, s1, hd, hs, by omega, by omega, by omega, rfl⟩
   · cases h
 
-theorem subdiag_addr {v w : View} {b e : Int} (h : submatrixOnDiagonal v b e = .ok w) :
+theorem subdiagRaw_addr {v w : View} {b e : Int} (h : submatrixOnDiagonalRaw v b e = .ok w) :
     w.WF ∧ ∀ ix : List Int, ix.length = w.dims.length →
       (expandOp v (.subdiag b e) ix).length = v.dims.length ∧ addr w ix = addr v (expandOp v (.subdiag b e) ix) := by
-  obtain ⟨d, s0, s1, hd, hs, _, _, _, rfl⟩ := subdiag_ok h
+  obtain ⟨d, s0, s1, hd, hs, _, _, _, rfl⟩ := subdiagRaw_ok h
   refine ⟨rfl, fun ix hix => ?_⟩
   match ix, hix with
   | [i, j], _ =>
     simp only [expandOp, addr, hd, hs, dot, List.length_cons, List.length_nil]
     exact ⟨trivial, by grind⟩
 
-theorem subdiag_inRange {v w : View} {b e : Int} (h : submatrixOnDiagonal v b e = .ok w) :
+theorem subdiagRaw_inRange {v w : View} {b e : Int} (h : submatrixOnDiagonalRaw v b e = .ok w) :
     ∀ ix : List Int, InRange ix w.dims → InRange (expandOp v (.subdiag b e) ix) v.dims := by
-  obtain ⟨d, s0, s1, hd, hs, h0, h1, h2, rfl⟩ := subdiag_ok h
+  obtain ⟨d, s0, s1, hd, hs, h0, h1, h2, rfl⟩ := subdiagRaw_ok h
   intro ix hix
   match ix, hix with
   | [i, j], hix =>
@@ -1022,10 +1044,10 @@ theorem map_toNat_ofNat : ∀ (nd : List Int), (nd.any (· < 0)) = false → (nd
     rw [this]
     omega
 
-theorem reshape_ok {v w : View} {nd : List Int} (h : reshape v nd = .ok w) :
+theorem reshapeRaw_ok {v w : View} {nd : List Int} (h : reshapeRaw v nd = .ok w) :
     ∃ d0 s0, v.dims = [d0] ∧ v.strides = [s0] ∧ nd ≠ [] ∧ prodInt nd = (d0 : Int) ∧ (nd.any (· < 0)) = false ∧
       w = ⟨v.base, nd.map Int.toNat, reshapeStrides s0 (nd.map Int.toNat)⟩ := by
-  unfold reshape at h
+  unfold reshapeRaw at h
   split at h
   · rename_i d0 s0 hd hs
     split at h
@@ -1041,10 +1063,10 @@ theorem reshape_ok {v w : View} {nd : List Int} (h : reshape v nd = .ok w) :
           exact ⟨d0, s0, hd, hs, hne, by simpa using hp, by simpa using hneg, rfl⟩
   · cases h
 
-theorem reshape_addr {v w : View} {nd : List Int} (h : reshape v nd = .ok w) :
+theorem reshapeRaw_addr {v w : View} {nd : List Int} (h : reshapeRaw v nd = .ok w) :
     w.WF ∧ ∀ ix : List Int, ix.length = w.dims.length →
       (expandOp v (.reshape nd) ix).length = v.dims.length ∧ addr w ix = addr v (expandOp v (.reshape nd) ix) := by
-  obtain ⟨d0, s0, hd, hs, hne, hp, hneg, rfl⟩ := reshape_ok h
+  obtain ⟨d0, s0, hd, hs, hne, hp, hneg, rfl⟩ := reshapeRaw_ok h
   have hne' : nd.map Int.toNat ≠ [] := by simpa using hne
   obtain ⟨o, os, h1, h2, h3, h4⟩ := reshapeStrides_spec s0 _ hne'
   refine ⟨by simp only [View.WF, h1]; simp at h3 ⊢; omega, fun ix hix => ?_⟩
@@ -1052,9 +1074,9 @@ theorem reshape_addr {v w : View} {nd : List Int} (h : reshape v nd = .ok w) :
   have := h4 ix hix
   exact ⟨trivial, by omega⟩
 
-theorem reshape_inRange {v w : View} {nd : List Int} (h : reshape v nd = .ok w) :
+theorem reshapeRaw_inRange {v w : View} {nd : List Int} (h : reshapeRaw v nd = .ok w) :
     ∀ ix : List Int, InRange ix w.dims → InRange (expandOp v (.reshape nd) ix) v.dims := by
-  obtain ⟨d0, s0, hd, hs, hne, hp, hneg, rfl⟩ := reshape_ok h
+  obtain ⟨d0, s0, hd, hs, hne, hp, hneg, rfl⟩ := reshapeRaw_ok h
   intro ix hix
   obtain ⟨l0, l1⟩ := lin_bound _ ix hix
   rw [map_toNat_ofNat nd hneg, hp] at l1
@@ -1078,38 +1100,137 @@ def RunAdm (c : Bool) : View → List Op → Prop
   | _, [] => True
   | v, op :: ops => OpAdm c v op ∧ ∀ w, apply c v op = .ok w → RunAdm c w ops
 
-theorem apply_addr {c : Bool} {v w : View} {op : Op} (hwf : v.WF) (h : apply c v op = .ok w) :
+theorem applyRaw_addr {c : Bool} {v w : View} {op : Op} (hwf : v.WF) (h : applyRaw c v op = .ok w) :
     w.WF ∧ ∀ ix : List Int, ix.length = w.dims.length →
       (expandOp v op ix).length = v.dims.length ∧ addr w ix = addr v (expandOp v op ix) := by
   cases op with
-  | slice args => exact slice_addr h
-  | subset be => exact slice_addr h
-  | sub1 e => exact sub1_addr hwf h
+  | slice args => exact sliceRaw_addr h
+  | subset be => exact sliceRaw_addr h
+  | sub1 e => exact sub1Raw_addr hwf h
   | T => exact transpose_addr h
-  | permute p => exact permute_addr h
-  | diag k => exact diag_addr h
-  | subdiag b e => exact subdiag_addr h
-  | reshape nd => exact reshape_addr h
+  | permute p => exact permuteRaw_addr h
+  | diag k => exact diagRaw_addr h
+  | subdiag b e => exact subdiagRaw_addr h
+  | reshape nd => exact reshapeRaw_addr h
   | softLink =>
-    simp only [apply, softLink] at h
+    simp only [applyRaw] at h
     cases h
     exact ⟨hwf, fun ix hix => ⟨hix, rfl⟩⟩
 
-theorem apply_inRange {c : Bool} {v w : View} {op : Op} (h : apply c v op = .ok w) (hadm : OpAdm c v op) :
+theorem applyRaw_inRange {c : Bool} {v w : View} {op : Op} (h : applyRaw c v op = .ok w) (hadm : OpAdm c v op) :
     ∀ ix : List Int, InRange ix w.dims → InRange (expandOp v op ix) v.dims := by
   cases op with
-  | slice args => exact slice_inRange h hadm
-  | subset be => exact slice_inRange h hadm
-  | sub1 e => exact sub1_inRange h hadm
+  | slice args => exact sliceRaw_inRange h hadm
+  | subset be => exact sliceRaw_inRange h hadm
+  | sub1 e => exact sub1Raw_inRange h hadm
   | T => exact transpose_inRange h
-  | permute p => exact permute_inRange h hadm
-  | diag k => exact diag_inRange h
-  | subdiag b e => exact subdiag_inRange h
-  | reshape nd => exact reshape_inRange h
+  | permute p => exact permuteRaw_inRange h hadm
+  | diag k => exact diagRaw_inRange h
+  | subdiag b e => exact subdiagRaw_inRange h
+  | reshape nd => exact reshapeRaw_inRange h
   | softLink =>
-    simp only [apply, softLink] at h
+    simp only [applyRaw] at h
     cases h
     exact fun ix hix => hix
+
+/-! ### the view constructors: all extents zero as soon as one is zero (`View.canon`, F-76) -/
+
+theorem canonDims_length (ds : List Nat) : (canonDims ds).length = ds.length := by
+  unfold canonDims
+  split <;> simp
+
+theorem canonDims_of_pos {ds : List Nat} (h : ∀ d ∈ ds, d ≠ 0) : canonDims ds = ds := by
+  unfold canonDims
+  rw [if_neg]
+  intro hany
+  obtain ⟨d, hd, h0⟩ := List.any_eq_true.mp hany
+  exact h d hd (by simpa using h0)
+
+theorem canonDims_of_zero {ds : List Nat} (h : 0 ∈ ds) : canonDims ds = ds.map (fun _ => 0) := by
+  unfold canonDims
+  rw [if_pos]
+  exact List.any_eq_true.mpr ⟨0, h, by simp⟩
+
+theorem canonDims_singleton (n : Nat) : canonDims [n] = [n] := by
+  by_cases h : n = 0
+  · subst h; rfl
+  · exact canonDims_of_pos (by simpa using h)
+
+/-- an array with a zero extent has no valid index -/
+theorem not_inRange_of_zero : ∀ {ds : List Nat} {ix : List Int}, 0 ∈ ds → ¬ InRange ix ds := by
+  intro ds
+  induction ds with
+  | nil => intro ix h; simp at h
+  | cons d ds ih =>
+    intro ix h hin
+    cases ix with
+    | nil => simp [InRange] at hin
+    | cons i ix =>
+      obtain ⟨⟨h0, h1⟩, hr⟩ := hin
+      rcases List.mem_cons.mp h with h | h
+      · subst h; omega
+      · exact ih h hr
+
+/-- the canonical extents admit exactly the same indices -/
+theorem inRange_canon {ds : List Nat} {ix : List Int} : InRange ix (canonDims ds) ↔ InRange ix ds := by
+  by_cases h : 0 ∈ ds
+  · rw [canonDims_of_zero h]
+    constructor
+    · intro hin
+      exfalso
+      refine not_inRange_of_zero (ds := ds.map fun _ => 0) ?_ hin
+      exact List.mem_map.mpr ⟨0, h, rfl⟩
+    · intro hin
+      exact absurd hin (not_inRange_of_zero h)
+  · rw [canonDims_of_pos (fun d hd h0 => h (h0 ▸ hd))]
+
+theorem canon_addr (u : View) (ix : List Int) : addr u.canon ix = addr u ix := rfl
+
+theorem canon_WF {u : View} : u.canon.WF ↔ u.WF := by
+  simp only [View.WF, View.canon, canonDims_length]
+
+theorem construct_ok {r : Except Err View} {w : View} (h : construct r = .ok w) : ∃ u, r = .ok u ∧ w = u.canon := by
+  cases r with
+  | error e => simp [construct] at h
+  | ok u =>
+    simp only [construct] at h
+    cases h
+    exact ⟨u, rfl, rfl⟩
+
+theorem construct_err {r : Except Err View} {e : Err} (h : r = .error e) : construct r = .error e := by
+  subst h; rfl
+
+/-- every operation: what the member function computes, then (all but `T`) the view constructor -/
+theorem apply_eq (c : Bool) (v : View) (op : Op) :
+    apply c v op = if op.constructs then construct (applyRaw c v op) else applyRaw c v op := by
+  cases op <;> rfl
+
+theorem apply_ok {c : Bool} {v w : View} {op : Op} (h : apply c v op = .ok w) :
+    ∃ u, applyRaw c v op = .ok u ∧ w = (if op.constructs then u.canon else u) := by
+  rw [apply_eq] at h
+  by_cases hc : op.constructs = true
+  · rw [if_pos hc] at h
+    obtain ⟨u, hu, rfl⟩ := construct_ok h
+    exact ⟨u, hu, by rw [if_pos hc]⟩
+  · rw [if_neg hc] at h
+    exact ⟨w, h, by rw [if_neg hc]⟩
+
+theorem apply_addr {c : Bool} {v w : View} {op : Op} (hwf : v.WF) (h : apply c v op = .ok w) :
+    w.WF ∧ ∀ ix : List Int, ix.length = w.dims.length →
+      (expandOp v op ix).length = v.dims.length ∧ addr w ix = addr v (expandOp v op ix) := by
+  obtain ⟨u, hu, rfl⟩ := apply_ok h
+  obtain ⟨h1, h2⟩ := applyRaw_addr hwf hu
+  split
+  · exact ⟨canon_WF.mpr h1, fun ix hix => h2 ix (by simpa [View.canon, canonDims_length] using hix)⟩
+  · exact ⟨h1, h2⟩
+
+theorem apply_inRange {c : Bool} {v w : View} {op : Op} (h : apply c v op = .ok w) (hadm : OpAdm c v op) :
+    ∀ ix : List Int, InRange ix w.dims → InRange (expandOp v op ix) v.dims := by
+  obtain ⟨u, hu, rfl⟩ := apply_ok h
+  have h2 := applyRaw_inRange hu hadm
+  split
+  · exact fun ix hix => h2 ix (inRange_canon.mp hix)
+  · exact h2
 
 theorem run_cons_ok {c : Bool} {v w : View} {op : Op} {ops : List Op} (h : run c v (op :: ops) = .ok w) :
     ∃ u, apply c v op = .ok u ∧ run c u ops = .ok w := by
@@ -1433,25 +1554,25 @@ theorem sliceGo_checked_imp : ∀ (ds : List Nat) (ss : List Int) (as : List Ix)
             simpa [hu, hr, bind, Except.bind] using h
 
 /-- a view the bounds-checked build returns is the view the default build returns -/
-theorem slice_checked_imp {v w : View} {args : List Ix} (h : slice v args true = .ok w) :
-    slice v args false = .ok w := by
-  unfold slice at h ⊢
+theorem sliceRaw_checked_imp {v w : View} {args : List Ix} (h : sliceRaw v args true = .ok w) :
+    sliceRaw v args false = .ok w := by
+  unfold sliceRaw at h ⊢
   cases hg : sliceGo true v.dims v.strides args with
   | error x => simp [hg, bind, Except.bind] at h
   | ok r => rw [sliceGo_checked_imp _ _ _ r hg]; simpa [hg, bind, Except.bind] using h
 
-theorem sub1_checked_rejects {v : View} {e : EndExpr} {d : Nat} {ds : List Nat} {s : Int} {ss : List Int}
+theorem sub1Raw_checked_rejects {v : View} {e : EndExpr} {d : Nat} {ds : List Nat} {s : Int} {ss : List Int}
     (hd : v.dims = d :: ds) (hs : v.strides = s :: ss) (h : ¬ (0 ≤ e.resolve d ∧ e.resolve d < d)) :
-    sub1 v e true = .error .index_out_of_bounds := by
-  unfold sub1
+    sub1Raw v e true = .error .index_out_of_bounds := by
+  unfold sub1Raw
   rw [hd, hs]
   simp [getIndex_checked, h, bind, Except.bind]
 
 /-! ### diag_vector: shape -/
-theorem diag_ok {v w : View} {k : Int} {n : Nat} {s0 s1 : Int} (hd : v.dims = [n, n]) (hs : v.strides = [s0, s1])
-    (hn : 0 < n) (h : diagVector v k = .ok w) :
+theorem diagRaw_ok {v w : View} {k : Int} {n : Nat} {s0 s1 : Int} (hd : v.dims = [n, n]) (hs : v.strides = [s0, s1])
+    (hn : 0 < n) (h : diagVectorRaw v k = .ok w) :
     (k.natAbs : Int) ≤ n ∧ w.dims = [((n : Int) - k.natAbs).toNat] ∧ w.strides = [s0 + s1] := by
-  unfold diagVector at h
+  unfold diagVectorRaw at h
   rw [hd, hs] at h
   simp only at h
   rw [if_neg (by omega)] at h
@@ -1476,6 +1597,106 @@ theorem diag_ok {v w : View} {k : Int} {n : Nat} {s0 s1 : Int} (hd : v.dims = [n
       rw [hab]
       refine ⟨by omega, ?_, rfl⟩
       simp only [Int.sub_neg]
+
+/-! ### views without elements: canonical extents -/
+
+/-- the class invariant the view constructors establish (F-76) and `resize` / the default constructor always had:
+    if one extent is zero, all are -/
+def View.Canonical (v : View) : Prop := v.dims = canonDims v.dims
+
+theorem canonDims_idem (ds : List Nat) : canonDims (canonDims ds) = canonDims ds := by
+  by_cases h : 0 ∈ ds
+  · rw [canonDims_of_zero h]
+    cases ds with
+    | nil => simp at h
+    | cons d ds =>
+      have h0 : 0 ∈ (d :: ds).map (fun _ => 0) := by simp
+      rw [canonDims_of_zero h0]
+      simp
+  · rw [canonDims_of_pos (fun d hd h0 => h (h0 ▸ hd))]
+    exact canonDims_of_pos (fun d hd h0 => h (h0 ▸ hd))
+
+theorem canon_canonical (u : View) : u.canon.Canonical := by
+  simp only [View.Canonical, View.canon, canonDims_idem]
+
+/-- canonical extents with a zero among them are all zero -/
+theorem canonical_all_zero {ds : List Nat} (hc : ds = canonDims ds) (hz : 0 ∈ ds) : ∀ d ∈ ds, d = 0 := by
+  intro d hd
+  rw [canonDims_of_zero hz] at hc
+  rw [hc] at hd
+  obtain ⟨_, _, rfl⟩ := List.mem_map.mp hd
+  rfl
+
+theorem allIndices_of_zero : ∀ {ds : List Nat}, 0 ∈ ds → allIndices ds = [] := by
+  intro ds
+  induction ds with
+  | nil => intro h; simp at h
+  | cons d ds ih =>
+    intro h
+    rcases List.mem_cons.mp h with h | h
+    · subst h; simp [allIndices]
+    · simp [allIndices, ih h]
+
+theorem allIndices_eq_nil : ∀ {ds : List Nat}, allIndices ds = [] → 0 ∈ ds := by
+  intro ds
+  induction ds with
+  | nil => intro h; simp [allIndices] at h
+  | cons d ds ih =>
+    intro h
+    by_cases hd : d = 0
+    · simp [hd]
+    · simp only [allIndices, List.flatMap_eq_nil_iff, List.map_eq_nil_iff] at h
+      have := h 0 (by simp; omega)
+      exact List.mem_cons_of_mem _ (ih this)
+
+theorem transpose_canonical {v w : View} (hv : v.Canonical) (h : transpose v = .ok w) : w.Canonical := by
+  obtain ⟨d0, d1, s0, s1, hd, hs, rfl⟩ := transpose_ok h
+  simp only [View.Canonical, hd] at hv ⊢
+  by_cases h0 : d0 = 0
+  · subst h0
+    have h1 : d1 = 0 := by
+      unfold canonDims at hv
+      simpa using hv
+    subst h1
+    rfl
+  · by_cases h1 : d1 = 0
+    · subst h1
+      unfold canonDims at hv
+      simp at hv
+      exact absurd hv h0
+    · exact (canonDims_of_pos (by intro x hx; simp at hx; omega)).symm
+
+/-- every operation keeps the extents canonical: the constructing ones whatever the receiver, `T` for a canonical
+    receiver -/
+theorem apply_canonical {c : Bool} {v w : View} {op : Op} (hop : op.constructs = true ∨ v.Canonical)
+    (h : apply c v op = .ok w) : w.Canonical := by
+  by_cases hc : op.constructs = true
+  · obtain ⟨u, _, rfl⟩ := apply_ok h
+    rw [if_pos hc]
+    exact canon_canonical u
+  · cases op with
+    | T =>
+      rcases hop with hop | hop
+      · exact absurd hop hc
+      · exact transpose_canonical hop h
+    | _ => exact absurd rfl hc
+
+theorem run_canonical (c : Bool) : ∀ (ops : List Op) (v w : View), v.Canonical → run c v ops = .ok w → w.Canonical := by
+  intro ops
+  induction ops with
+  | nil =>
+    intro v w hv h
+    simp only [run] at h
+    cases h
+    exact hv
+  | cons op ops ih =>
+    intro v w hv h
+    obtain ⟨u, hu, hr⟩ := run_cons_ok h
+    exact ih u w (apply_canonical (Or.inr hv) hu) hr
+
+theorem fresh_canonical (rowMajor : Bool) {dims : List Nat} (h : ∀ d ∈ dims, d ≠ 0) : (fresh rowMajor dims).Canonical := by
+  simp only [View.Canonical, fresh]
+  exact (canonDims_of_pos h).symm
 
 /-- decidable equality of results (for the concrete examples in `Props/C06.lean`) -/
 instance instDecEqResult : DecidableEq (Except Err View)
